@@ -482,7 +482,8 @@ def _capa_theory(eng, st, tokc, ac, bidc, tokp, ap, bidp, m, M, n):
                         "CG(T)=max(CG(T-1), CG(T-1)+PSp(T-1), max over s with m<=T-s<=M of CG(s)+PSc(s,T)); CA(T) attains the collective option")
     return z3.And(
         _CG(0) == 0,
-        z3.ForAll([T], z3.Implies(z3.And(1 <= T, T <= n), z3.And(_CG(T) >= _CG(T - 1), _CG(T) >= _CG(T - 1) + PSp(T - 1))), patterns=[_CG(T)]),
+        # stated over t = T-1 with patterns that cannot re-trigger themselves (no matching loop through CG(T-1))
+        z3.ForAll([T], z3.Implies(z3.And(0 <= T, T < n), z3.And(_CG(T + 1) >= _CG(T), _CG(T + 1) >= _CG(T) + PSp(T))), patterns=[_CA(T + 1)]),      # instantiated only where the ghost code names CA(t + 1)
         z3.ForAll([T, s], z3.Implies(z3.And(1 <= T, T <= n, 0 <= s, m <= T - s, T - s <= M), _CG(T) >= _CG(s) + PSc(s, T)), patterns=[PSc(s, T)]),
         z3.ForAll([T], z3.Implies(z3.And(1 <= T, T <= n),
                                   z3.Or(_CG(T) == _CG(T - 1), _CG(T) == _CG(T - 1) + PSp(T - 1),
@@ -500,3 +501,9 @@ def _capa_subadd(eng, st, tokc, ac, bidc, P, m, M, n):
     a, b, c = z3.Ints("a!cs b!cs c!cs")
     return z3.ForAll([a, b, c], z3.Implies(z3.And(0 <= a, a + m <= b, b + m <= c, c <= n, c - a <= M), PSc(a, c) <= PSc(a, b) + PSc(b, c) + P),
                      patterns=[z3.MultiPattern(PSc(a, b), PSc(b, c))])
+
+
+@spec("vsum")
+def _vsum(eng, st, a):
+    """sum of a 1-D array, the same term the engine uses for a.sum() / np.sum(a)."""
+    return eng.np_sum(st, [a], {}, None)
